@@ -122,6 +122,14 @@ func c06Gen(rng *verifsim.RNG, idx int, tier string) *Plan {
 		p.Faults = append(p.Faults, Fault{Seam: "write", Key: "mc", Count: -1, Lat: int64(rng.Dur(time.Millisecond, 400*time.Millisecond))})
 		p.Class += "+latency"
 	}
+	if p.Class == "burst" && rng.Bool(0.3) {
+		// a multicast transmission fails for a transient reason (no buffers,
+		// network down): nobody got that RA, so whoever triggered it is still owed
+		// one - by the connection that replaces this one, at once
+		p.Faults = append(p.Faults, Fault{Seam: "write", Key: "mc", From: int64(rng.Dur(time.Second, horizon)), Count: 1,
+			Err: []string{"ENOBUFS", "ENETDOWN", "EINVAL"}[rng.Intn(3)]})
+		p.Class += "+failing-multicast"
+	}
 	if p.Class == "mixed-unicast" && rng.Bool(0.4) {
 		// slow unicast transmissions: what one host's RA is waiting for must not
 		// hold up the multicast RAs (they are separate transmissions)
@@ -201,7 +209,7 @@ func c06Oracle(info *runInfo, res *verifsim.Result) {
 			}
 			served := false
 			for _, w := range g.writes {
-				if w.mc() && w.marshalErr == "" && w.seq > r.seq && w.t <= deadline {
+				if w.mc() && w.marshalErr == "" && w.err == "" && w.seq > r.seq && w.t <= deadline {
 					served = true
 					break
 				}
